@@ -116,7 +116,17 @@ func runC14(p *core.Prog, r *core.Report) {
 		r.Check(ok, "C14-R1", "worker loop continues after a task (panicking or not)", p.FuncPos(t.Worker), "the Start frame is a synchronous call inside the loop; the next iteration is reachable from it", "the call that runs the task is not a synchronous call inside the worker loop from which the loop continues")
 	}
 
-	// ---- R2
+	// ---- R2 (writes are judged on the package's inlined views: a constructor helper that fills a list in place writes
+	// the object while it is still unpublished)
+	var c14Fns []*ssa.Function
+	for _, fn := range p.ModuleFuncs() {
+		if rootFn(fn).Pkg != p.SPkgs["tasklane"] {
+			c14Fns = append(c14Fns, fn)
+		}
+	}
+	for _, v := range t.Views {
+		c14Fns = append(c14Fns, sx.WithClosures(v.Fn)...)
+	}
 	statusReads := map[*types.Var]bool{}
 	for _, f := range structFields(t.Named) {
 		for _, ref := range sx.FieldRefs([]*ssa.Function{t.Status}, f) {
@@ -152,7 +162,7 @@ func runC14(p *core.Prog, r *core.Report) {
 		if sl, ok := f.Type().Underlying().(*types.Slice); ok {
 			_, isChanList = sl.Elem().Underlying().(*types.Chan)
 		}
-		for _, ref := range sx.FieldRefs(p.ModuleFuncs(), f) {
+		for _, ref := range sx.FieldRefs(c14Fns, f) {
 			fa, ok := ref.Instr.(*ssa.FieldAddr)
 			if !ok {
 				continue
@@ -298,11 +308,11 @@ func runC14(p *core.Prog, r *core.Report) {
 			}
 			return 0, true
 		}
-		hdr := outerLoop(t.Queue)
 		incs, decs := map[ssa.Instruction]bool{}, map[ssa.Instruction]bool{}
 		seenCnt := map[ssa.Instruction]bool{}
 		for _, v := range t.Views {
 			for _, fn := range sx.WithClosures(v.Fn) {
+				fn := fn
 				sx.Instrs(fn, func(in ssa.Instruction) {
 					c, ok := in.(ssa.CallInstruction)
 					if !ok {
@@ -312,29 +322,33 @@ func runC14(p *core.Prog, r *core.Report) {
 					if !is {
 						return
 					}
-					where := fnName(v.Root) + " at " + p.Pos(in.Pos())
 					_, isCall := c.(*ssa.Call)
-					inQueue := fn == t.Queue
+					actor := t.actor(fn, v.Root)
+					where := fnName(v.Root) + " at " + p.Pos(in.Pos())
 					switch {
 					case d == 100:
 						r.Check(sameFn(v.Root, t.Status), "C14-R3", "counter read in "+fnName(v.Root), p.Pos(in.Pos()), "Status reads the counter", "counter read outside Status")
-					case d == 1 && inQueue && isCall && hdr != nil && hdr.Dominates(in.Block()):
-						incs[in] = true
+					case (d == 1 || d == -1) && isCall && actor == "queue" && fn == t.Queue:
+						if d == 1 {
+							incs[in] = true
+						} else {
+							decs[in] = true
+						}
 						seenCnt[sx.OrigInstr(in)] = true
-					case d == -1 && inQueue && isCall && hdr != nil && hdr.Dominates(in.Block()):
-						decs[in] = true
-						seenCnt[sx.OrigInstr(in)] = true
+					case (d == 1 || d == -1) && actor == "queue" && seenCnt[sx.OrigInstr(in)]:
+						// the same source statement seen in another view of the queue goroutine (its wrapper closure)
 					default:
-						r.Fail("C14-R3", "counter modified in "+fnName(v.Root), p.Pos(in.Pos()), "the pending counter is modified outside the paired +1/-1 of the queue loop ("+where+", delta "+fmt.Sprint(d)+"): the count can leave [0, laneSize] (e.g. wrap below zero)")
+						r.Fail("C14-R3", "counter modified in "+fnName(v.Root), p.Pos(in.Pos()), "the pending counter is modified outside the paired +1/-1 of the queue goroutine ("+where+", delta "+fmt.Sprint(d)+"): the count can leave [0, laneSize] (e.g. wrap below zero)")
 					}
 				})
 			}
 		}
-		if hdr == nil {
-			r.Fail("C14-R3", "queue loop", p.FuncPos(t.Queue), "no loop")
+		// rounds: from one receive of a task to the next (however the loop is written) the counter goes +1 then -1
+		R := t.recvArms(t.Queue, "buffered")
+		if len(R) == 0 {
+			r.Fail("C14-R3", "queue loop", p.FuncPos(t.Queue), "no receive from the buffered queue found in the queue goroutine")
 			return
 		}
-		back := sx.BackEdgesTo(hdr)
 		w := func(set map[ssa.Instruction]bool) sx.Weights {
 			return sx.Weights{Instr: func(in ssa.Instruction) sx.Range {
 				if set[in] {
@@ -343,50 +357,41 @@ func runC14(p *core.Prog, r *core.Report) {
 				return sx.Range{}
 			}}
 		}
-		ic := sx.Count(t.Queue, hdr, w(incs), back)
-		dc := sx.Count(t.Queue, hdr, w(decs), back)
-		ok := len(ic.BackEdges) > 0
-		why := ""
-		for _, rg := range ic.BackEdges {
-			if !rg.Is(1) {
-				ok, why = false, "an iteration increments the counter "+rangeStr(rg)+" times"
-			}
+		why := roundDiscipline(p, t.Queue, R, w(incs), "the counter is incremented")
+		if why == "" {
+			why = roundDiscipline(p, t.Queue, R, w(decs), "the counter is decremented")
 		}
-		for _, rg := range dc.BackEdges {
-			if !rg.Is(1) {
-				ok, why = false, "an iteration decrements the counter "+rangeStr(rg)+" times"
-			}
-		}
-		r.Check(ok, "C14-R3", "one +1 and one -1 per completed iteration", p.FuncPos(t.Queue), "every trip around the queue loop increments once and decrements once", why)
-		// ordering: +1 after the receive arm, -1 only after +1 and after a hand-over arm
-		recvArms, _ := t.armEdges(t.Queue, func(sel *ssa.Select, a sx.Arm) bool {
-			return a.State != nil && a.State.Dir == types.RecvOnly && t.chanRole(a.State.Chan) == "buffered"
-		})
+		r.Check(why == "" && len(incs) > 0 && len(decs) > 0, "C14-R3", "one +1 and one -1 per completed iteration", p.FuncPos(t.Queue), "between two consecutive receives the counter is incremented once and decremented once; nothing before the first receive", why)
+		// ordering inside a round: the -1 only after the +1 and after a hand-over arm; never more -1 than +1 on a path that leaves
 		sendArms, _ := t.armEdges(t.Queue, func(sel *ssa.Select, a sx.Arm) bool {
 			return a.State != nil && a.State.Dir == types.SendOnly
 		})
 		okOrd, whyOrd := true, ""
-		first := hdr.Instrs[0]
-		for in := range incs {
-			if first == in || sx.ReachInstr(t.Queue, first, in, sx.Cut{Edges: recvArms}) {
-				okOrd, whyOrd = false, "the +1 at "+p.Pos(in.Pos())+" can run before a task was taken from the buffer"
+		_, incRounds := roundCounts(t.Queue, R, w(incs))
+		_, decRounds := roundCounts(t.Queue, R, w(decs))
+		for e := range R {
+			first := e.To().Instrs[0]
+			cutS := sx.Cut{Edges: map[sx.Edge]bool{}}
+			for k := range sendArms {
+				cutS.Edges[k] = true
 			}
-		}
-		for in := range decs {
-			rg, _ := ic.Before(in)
-			if !rg.Is(1) {
-				okOrd, whyOrd = false, "the -1 at "+p.Pos(in.Pos())+" can run in an iteration that incremented "+rangeStr(rg)+" times (underflow wraps the unsigned counter)"
+			for k := range R {
+				cutS.Edges[k] = true
 			}
-			if first == in || sx.ReachInstr(t.Queue, first, in, sx.Cut{Edges: sendArms}) {
-				okOrd, whyOrd = false, "the -1 at "+p.Pos(in.Pos())+" can run before the held task was handed over"
+			for in := range decs {
+				if rg, ok := incRounds[e].Before(in); ok && !rg.Is(1) {
+					okOrd, whyOrd = false, "the -1 at "+p.Pos(in.Pos())+" can run in a round that incremented "+rangeStr(rg)+" times (underflow wraps the unsigned counter)"
+				}
+				if first == in || sx.ReachInstr(t.Queue, first, in, cutS) {
+					okOrd, whyOrd = false, "the -1 at "+p.Pos(in.Pos())+" can run before the held task was handed over"
+				}
 			}
-		}
-		// exit paths: never more decrements than increments
-		for _, ret := range sx.Returns(t.Queue) {
-			i, ok1 := ic.Before(ret)
-			d, ok2 := dc.Before(ret)
-			if ok1 && ok2 && d.Max > i.Min {
-				okOrd, whyOrd = false, "an exit path may decrement more often than it incremented"
+			for _, ret := range sx.Returns(t.Queue) {
+				i, ok1 := incRounds[e].Before(ret)
+				d, ok2 := decRounds[e].Before(ret)
+				if ok1 && ok2 && d.Max > i.Min {
+					okOrd, whyOrd = false, "an exit path may decrement more often than it incremented"
+				}
 			}
 		}
 		r.Check(okOrd && len(incs) > 0 && len(decs) > 0, "C14-R3", "+1 after the receive, -1 after +1 and after the hand-over", p.FuncPos(t.Queue), "0 <= counter <= number of queue goroutines", whyOrd)
@@ -403,6 +408,93 @@ func runC14(p *core.Prog, r *core.Report) {
 			}
 		})
 		r.Check(okSum, "C14-R3", "Status adds the length of every buffered queue", p.FuncPos(t.Status), "len(buffered[i]) summed in a loop over the lanes, plus the counter", "Status does not sum len() of the buffered queues over all lanes")
-		_ = token.ADD
+		// …and on every path: the value reported as pending is a sum that includes both the summed lengths and the counter
+		// (a shortcut such as "all buffers empty → 0" forgets the tasks held by the queue goroutines)
+		{
+			var pendingVals []ssa.Value
+			var pendingStores []*ssa.Store
+			ls := p.Named("tasklane", "LaneStatus")
+			sx.Instrs(t.Status, func(in ssa.Instruction) {
+				st, ok := in.(*ssa.Store)
+				if !ok {
+					return
+				}
+				fa, ok := st.Addr.(*ssa.FieldAddr)
+				if !ok || ls == nil || !types.Identical(ptrTo(fa.X.Type()), ls) {
+					return
+				}
+				if f := sx.FieldOf(fa); f != nil && strings.Contains(strings.ToLower(f.Name()), "pending") {
+					pendingStores = append(pendingStores, st)
+				}
+			})
+			// the value that counts is the one a return can see: a store after which no other store of the field must follow
+			for _, st := range pendingStores {
+				others := sx.Cut{Instrs: map[ssa.Instruction]bool{}}
+				for _, o := range pendingStores {
+					if o != st {
+						others.Instrs[o] = true
+					}
+				}
+				final := false
+				for _, ret := range sx.Returns(t.Status) {
+					if sx.ReachInstr(t.Status, st, ret, others) {
+						final = true
+					}
+				}
+				if final {
+					pendingVals = append(pendingVals, st.Val)
+				}
+			}
+			var has func(v ssa.Value, pred func(ssa.Value) bool, seen map[ssa.Value]bool, all bool) bool
+			has = func(v ssa.Value, pred func(ssa.Value) bool, seen map[ssa.Value]bool, all bool) bool {
+				if v == nil {
+					return false
+				}
+				if seen[v] {
+					return all // a loop-carried accumulator: neutral
+				}
+				seen[v] = true
+				if pred(v) {
+					return true
+				}
+				switch x := sx.Unspill(v).(type) {
+				case *ssa.Phi:
+					// every incoming path must bring it (loop back edges are neutral)
+					n := 0
+					for _, e := range x.Edges {
+						if !has(e, pred, seen, true) {
+							return false
+						}
+						n++
+					}
+					return n > 0
+				case *ssa.BinOp:
+					if x.Op == token.ADD {
+						return has(x.X, pred, seen, all) || has(x.Y, pred, seen, all)
+					}
+				case *ssa.Convert:
+					return has(x.X, pred, seen, all)
+				case *ssa.ChangeType:
+					return has(x.X, pred, seen, all)
+				}
+				return false
+			}
+			isCounterLoad := func(v ssa.Value) bool {
+				c, ok := v.(*ssa.Call)
+				if !ok {
+					return false
+				}
+				d, is := isCnt(c)
+				return is && d == 100
+			}
+			okAll := len(pendingVals) > 0
+			whyP := "no store to the pending-task field of the status found"
+			for _, v := range pendingVals {
+				if !has(v, isCounterLoad, map[ssa.Value]bool{}, false) {
+					okAll, whyP = false, "on some path the value reported as pending ("+sx.ValPath(v)+") does not include the counter of tasks held by the queue goroutines"
+				}
+			}
+			r.Check(okAll, "C14-R3", "Status reports buffered lengths plus the held-task counter on every path", p.FuncPos(t.Status), "the pending value is, on every path, a sum that includes the counter load", whyP)
+		}
 	}
 }
